@@ -159,7 +159,10 @@ Step ==
           /\ depsOK' = (depsOK /\ DepsCheck) /\ popOK' = (popOK /\ PopCheck) /\ endOK' = (endOK /\ EndCheck)
           /\ faultOK' = (faultOK /\ FaultCheck) /\ lazyOK' = (lazyOK /\ LazyCheck) /\ selfOnlyOK' = (selfOnlyOK /\ SelfOnlyCheck)
           \* what GetComponentByName hands to the user is the published object, never a half-built one
-          /\ lookupOK' = (lookupOK /\ ((E.ev = "lookupReturn" /\ E.ok) => L1'[E.n].o = E.res.o))
+          /\ lookupOK' = (lookupOK /\ ((E.ev = "lookupReturn" /\ E.ok) => L1'[E.n].o = E.res.o)
+                                   /\ ((E.ev = "lookupAll" /\ E.ok) =>      \* GetComponents: every result is the published object, each component once
+                                         (/\ \A i \in 1..Len(E.res) : E.res[i].n \in Node /\ L1'[E.res[i].n].o = E.res[i].o
+                                          /\ {E.res[j].n : j \in 1..Len(E.res)} = Node /\ Len(E.res) = N)))
 TraceSpec == Init /\ [][Step]_vars
 Accepted == IF TLCGet("stats").diameter = Len(Trace) THEN TRUE
             ELSE Print(<<"REJECTED_AFTER_LINE", TLCGet("stats").diameter, "OF", Len(Trace)>>, FALSE)
